@@ -24,7 +24,7 @@ CHECKS = {
             "TLA+ model (MC_Bands) checked by TLC, unbounded TLAPS lemmas (TilesProof) + TLC trace validation (Bands_Trace) of bounded-exhaustive load_image_band executions",
             "4/C20"),
     "C15": ("model_checking",
-            "TLC proves on spec/MC_Expand.tla (the coded decimation + linear interpolation design, one separable axis, "
+            "TLAPS proves the CRPIX round trip for every factor (spec/ExpandProof.tla); TLC proves on spec/MC_Expand.tla (the coded decimation + linear interpolation design, one separable axis, "
             "integers scaled by f) that expansion is exact at nodes, within the sample range, exact for affine images on "
             "complete cells, restores CRPIX and removes BN_* for all R<=14 (24), f<=16 (32); the real "
             "fits_tools.compress/expand (file, in-memory HDU, SR6 CLI; CDELT and CD headers) is run on every (R,C,f) of a "
@@ -100,7 +100,7 @@ CHECKS = {
     "C17": ("model_checking",
             "Sexa.tla is an integer model of sexagesimal formatting/parsing with explicit carry; TLC checks field ranges, the inverse law, RA "
             "modulo 360 and sign handling on every non-tie input of the minute/degree/hour carry windows (and that the no-carry design is "
-            "rejected). The real dec2dms/dec2hms/dec2dec/ra2dec are run on the same domain, on seeded inputs and on TLC-emitted texts and every "
+            "rejected); TLAPS proves the same four theorems of the round-then-split design for EVERY declination and RA (spec/SexaProof.tla, 144 obligations). The real dec2dms/dec2hms/dec2dec/ra2dec are run on the same domain, on seeded inputs and on TLC-emitted texts and every "
             "call is validated by TLC (Sexa_Trace). gcd/bear/translate are validated by TLC (SphereGeom_Trace) in two-limb integers at 1e-9 deg: "
             "metric laws, exactly known great circles (meridian, over the pole, equator with RA wrap, poles, near-zero and near-antipodal), "
             "translate loops.",
